@@ -20,6 +20,9 @@ for u in payload['universes']:
             # an unrelated lexicon is added, looked at and removed first: the real lexicons then reuse its rowids
             battery.add_resource(db, 'zz_churn', u['churn'], None)
             battery.touch_everything()
+            if u.get('churn_bad'):
+                # an add that is rejected part-way must leave no trace, not even in how later removals behave
+                battery.call(battery.add_resource, db, 'zz_bad', u['churn_bad'], None)
             wn.remove('*', progress_handler=None)
         for i, (name, res) in enumerate(u['resources']):
             r = battery.call(battery.add_resource, db, name, res, u.get('style_seed'))
